@@ -93,6 +93,8 @@ def stepSt (d : DSt) : List String → DSt × String
   | ["bdel", b] => match slot b with | some b => obsOp d (.bdel b) | none => (d, "bad-op")
   | ["bcopy", b, src] => match slot b, slot src with | some b, some x => obsOp d (.bcopy b x) | _, _ => (d, "bad-op")
   | ["bassign", b, src] => match slot b, slot src with | some b, some x => obsOp d (.bassign b x) | _, _ => (d, "bad-op")
+  | ["bmove", b, src] => match slot b, slot src with | some b, some x => obsOp d (.bcopy b x) | _, _ => (d, "bad-op")
+  | ["bmassign", b, src] => match slot b, slot src with | some b, some x => obsOp d (.bassign b x) | _, _ => (d, "bad-op")
   | ["onew", o, b] => match slot o, slot b with | some o, some b => obsOp d (.onew o b) | _, _ => (d, "bad-op")
   | ["odel", o] => match slot o with | some o => obsOp d (.odel o) | none => (d, "bad-op")
   | ["ocopy", o, src] => match slot o, slot src with | some o, some x => obsOp d (.ocopy o x) | _, _ => (d, "bad-op")
